@@ -1863,6 +1863,9 @@ class Scene:
         # Specify the aircraft
         aircraft_names = self._get_aircraft(**kwargs)
 
+        # Each aircraft is passed by name to the functions below
+        kwargs = {key : value for key, value in kwargs.items() if key != "aircraft"}
+
         for aircraft_name in aircraft_names:
             derivs[aircraft_name] = {}
             # Determine stability derivatives
